@@ -118,7 +118,7 @@ struct LifeCase {
     raced: Vec<(String, Vec<String>)>,
 }
 
-const KINDS: &[&str] = &["read", "write", "sendzc", "mread"];
+const KINDS: &[&str] = &["read", "write", "sendzc", "mread", "readv", "writev", "sendto", "sendmsgzc", "recvv"];
 
 fn opcode_of(kind: &str) -> &'static str {
     match kind {
@@ -126,6 +126,11 @@ fn opcode_of(kind: &str) -> &'static str {
         "write" => "WRITE",
         "sendzc" => "SEND_ZC",
         "mread" => "READ_MULTISHOT",
+        "readv" => "READV",
+        "writev" => "WRITEV",
+        "sendto" => "SEND",
+        "sendmsgzc" => "SENDMSG_ZC",
+        "recvv" => "RECVMSG",
         _ => "?",
     }
 }
@@ -382,7 +387,7 @@ impl LifeCase {
         let ud = self.ops.get(i)?.ud_inflight?;
         let kind = &self.ops[i].kind;
         let mut spec = PostSpec::new(Target::UserData(ud), res, flags);
-        if res > 0 && (kind == "read" || kind == "mread") {
+        if res > 0 && (kind == "read" || kind == "mread" || kind == "readv" || kind == "recvv") {
             spec.data = Some(vec![0xCD; res as usize]);
             spec.select_buf = kind == "mread";
         }
@@ -593,6 +598,52 @@ impl Case for LifeCase {
                         res_addrs.push((buf.as_ptr() as usize, buf.capacity()));
                         let mark = track::next_id();
                         let fut = fd.send(buf).zc();
+                        let st = single_new_block(mark);
+                        (Box::new(FutOp { fut: Box::pin(fut), canon: |n: usize| n.to_string() }), st)
+                    }
+                    "readv" | "recvv" => {
+                        let b0: Vec<u8> = Vec::with_capacity(32);
+                        let b1: Vec<u8> = Vec::with_capacity(32);
+                        for b in [&b0, &b1] {
+                            res_blocks.extend(track::watch(b.as_ptr() as usize).map(|b| b.id));
+                            res_addrs.push((b.as_ptr() as usize, b.capacity()));
+                        }
+                        let mark = track::next_id();
+                        if *kind == "readv" {
+                            let fut = fd.read_vectored([b0, b1]);
+                            let st = single_new_block(mark);
+                            (Box::new(FutOp { fut: Box::pin(fut), canon: |b: [Vec<u8>; 2]| (b[0].len() + b[1].len()).to_string() }), st)
+                        } else {
+                            let fut = fd.recv_vectored([b0, b1]);
+                            let st = single_new_block(mark);
+                            (Box::new(FutOp { fut: Box::pin(fut), canon: |(b, _): ([Vec<u8>; 2], i32)| (b[0].len() + b[1].len()).to_string() }), st)
+                        }
+                    }
+                    "writev" | "sendmsgzc" => {
+                        let b0: Vec<u8> = vec![0x11; 32];
+                        let b1: Vec<u8> = vec![0x22; 32];
+                        for b in [&b0, &b1] {
+                            res_blocks.extend(track::watch(b.as_ptr() as usize).map(|b| b.id));
+                            res_addrs.push((b.as_ptr() as usize, b.capacity()));
+                        }
+                        let mark = track::next_id();
+                        if *kind == "writev" {
+                            let fut = fd.write_vectored([b0, b1]);
+                            let st = single_new_block(mark);
+                            (Box::new(FutOp { fut: Box::pin(fut), canon: |n: usize| n.to_string() }), st)
+                        } else {
+                            let fut = fd.send_vectored([b0, b1]).zc();
+                            let st = single_new_block(mark);
+                            (Box::new(FutOp { fut: Box::pin(fut), canon: |n: usize| n.to_string() }), st)
+                        }
+                    }
+                    "sendto" => {
+                        let buf: Vec<u8> = vec![0x33; 64];
+                        res_blocks.extend(track::watch(buf.as_ptr() as usize).map(|b| b.id));
+                        res_addrs.push((buf.as_ptr() as usize, buf.capacity()));
+                        let addr: std::net::SocketAddr = "127.0.0.1:9".parse().unwrap();
+                        let mark = track::next_id();
+                        let fut = fd.send_to(buf, addr);
                         let st = single_new_block(mark);
                         (Box::new(FutOp { fut: Box::pin(fut), canon: |n: usize| n.to_string() }), st)
                     }
@@ -1138,7 +1189,7 @@ impl LifeCase {
         let errs = [-libc::EINTR, -libc::ECANCELED, -libc::EIO, -libc::EAGAIN, -libc::EPIPE];
         let small = |rng: &mut Rng| rng.range(1, 64) as i32;
         match op.kind.as_str() {
-            "sendzc" => {
+            "sendzc" | "sendmsgzc" => {
                 if posted >= 1 {
                     (0, CQE_F_NOTIF)
                 } else {
